@@ -28,6 +28,8 @@ pub struct Case {
     pub nan: bool,
 }
 
+const RUNNING_SUM_SIGNATURE: &str = "order-dependent overflow error: the running INT sum leaves the 64-bit range although the total does not";
+
 const BIG_INTS: [i64; 10] = [1 << 30, 10, 200_000_001, 200_000_003, 200_000_005, 200_000_007, 3_000_000_000, -(1 << 30), 94_906_267, 1];
 
 pub struct C15;
@@ -61,7 +63,11 @@ fn j_add(a: &J, b: &J) -> Option<J> {
 
 fn j_same(a: &J, b: &J) -> bool {
     match (a, b) {
-        (J::Num(x), J::Num(y)) => x == y || (x.parse::<f64>().ok() == y.parse::<f64>().ok() && x.parse::<f64>().is_ok()),
+        // integers exactly (neighbours beyond 2^53 are different values), everything else as REAL
+        (J::Num(x), J::Num(y)) => match (x.parse::<i64>(), y.parse::<i64>()) {
+            (Ok(p), Ok(q)) => p == q,
+            _ => x == y || (x.parse::<f64>().ok() == y.parse::<f64>().ok() && x.parse::<f64>().is_ok()),
+        },
         _ => a == b,
     }
 }
@@ -176,7 +182,20 @@ impl Property for C15 {
                 let values: Vec<V> = table
                     .cols
                     .iter()
-                    .map(|(_, ty)| if t.chance(1, 6) { V::Null } else if *ty == Ty::Int { V::Int(*t.pick(&BIG_INTS)) } else { crate::props::c04::small_value(t, *ty) })
+                    .map(|(_, ty)| {
+                        if t.chance(1, 6) {
+                            V::Null
+                        } else if *ty == Ty::Int {
+                            if !ctx.excluded("c15_running_sum_overflow") && t.chance(1, 4) {
+                                // sums that leave the 64-bit range on the way although the total is back in it
+                                V::Int(*t.pick(&[i64::MAX, i64::MAX - 1, i64::MIN + 1, -1, 1, 2]))
+                            } else {
+                                V::Int(*t.pick(&BIG_INTS))
+                            }
+                        } else {
+                            crate::props::c04::small_value(t, *ty)
+                        }
+                    })
                     .collect();
                 lines.push(table.line(&values, t));
             }
@@ -250,6 +269,15 @@ impl Property for C15 {
             if base.result.is_err() && out.result.is_err() {
                 obs.label("both-failed");
                 continue;
+            }
+            if out.result.is_err() != base.result.is_err() {
+                let e = format!("{:?} / {:?}", base.result, out.result);
+                if e.contains("overflow") {
+                    return Err(Failure::new(
+                        RUNNING_SUM_SIGNATURE,
+                        format!("order {:?} gives {:?} {:?}\n  original order gives {:?} {:?}\n  {}", perm, out.records(), out.result, base.records(), base.result, context),
+                    ));
+                }
             }
             if out.records() != base.records() || out.result.is_err() != base.result.is_err() {
                 // which column differs?
